@@ -171,6 +171,10 @@ def run(ctx):
         f = ctx.fn("<%s as %s>::from_list" % (ty, _FM))
         if not f:
             continue
+        # "each names ... its outer-to-inner location path": a map value's error names its key on every
+        # path on which it is recorded (rule shared with C14)
+        from .C14 import located_rule
+        located_rule(ctx, "C02.loc.map-value-under-key", f, ctx.find_calls_deep(f, r"FromMeta>::from_meta$|FromMeta::from_meta$", helpers=2))
         seen_ins = ctx.find_calls(f, r"HashSet::<.*>::insert$")
         contains = ctx.find_calls(f, r"HashSet::<.*>::contains")
         nexts = [b2 for b2, t2 in ctx.find_calls(f, r"Iterator>::next$")]
